@@ -208,6 +208,7 @@ def hostile(rng, entry, dev, v):
 
 def generate(seed, tier, index):
     rng = random.Random(seed)
+    G.SPICY_NAMES[0] = False
     thorough = tier == "thorough"
     # enumeration: catalogue x kind x transport round-robin over the run index, everything else seeded
     entry = CATALOGUE[index % len(CATALOGUE)]
